@@ -876,10 +876,18 @@ func (c *SpecCtx) call(e *ECall) (Term, error) {
 			return Term{}, fmt.Errorf("msum of a non-map")
 		}
 		it, ok := mapIterByTerm[vc][typeKey(mt)]
-		if !ok {
-			return Term{}, fmt.Errorf("msum: no iteration over %s", exprString(e.Args[0]))
-		}
 		content := fmt.Sprintf("(select %s %s)", vc.get(c.state(), vc.mapComp(mt)), x.S)
+		if !ok {
+			// no iteration is open in this function (a caller reading a callee's post-condition): the sum
+			// over all keys, an uninterpreted function of the map's content. Consistent with the
+			// iteration form, which after a completed range has visited every key of the map.
+			name := "msumall_" + typeKey(mt)
+			if !vc.declared[name] {
+				vc.declared[name] = true
+				vc.decls = append(vc.decls, fmt.Sprintf("(declare-fun %s ((Array %s %s)) Int)", name, vc.sortOf(mt.Key()), vc.optSort(mt.Elem())))
+			}
+			return Term{fmt.Sprintf("(%s %s)", name, content), "Int", types.Typ[types.Int]}, nil
+		}
 		return Term{fmt.Sprintf("(%s %s (select %s %s))", vc.msumFn(mt), content, vc.get(c.state(), vc.mapIterComp(mt.Key())), it), "Int", types.Typ[types.Int]}, nil
 	case "mlen":
 		x, err := c.eval(e.Args[0])
